@@ -2013,6 +2013,47 @@ def gen_listings():
         o.append(f"def structFields_{ty} : List String := {lean_strs(fs)}")
         o.append(f"def zeroized_{ty} : List String := {lean_strs(z)}")
         o.append(f"def zeroizeSkipped_{ty} : List String := {lean_strs(skipped)}")
+    # the trait-impl surface of the crate's own types: every `impl <Trait> for <Type>` block of src/lib.rs and src/traits.rs with the
+    # methods it defines (a new override - write_vectored, new_from_slice, clone_from, ... - changes what existing callers run)
+    for rel, nm in [("src/lib.rs", "Lib"), ("src/traits.rs", "Traits"), ("src/hazmat.rs", "Hazmat")]:
+        t = strip_comments(src(rel))
+        # test modules are not part of the surface
+        mt = re.search(r"#\[cfg\(test\)\]\s*mod\s+\w+\s*\{", t)
+        if mt:
+            t = t[:mt.start()] + t[match_brace(t, t.index("{", mt.start())):]
+        rows = []
+        for m in re.finditer(r"\bimpl\b(\s*<[^>{]*>)?\s+([\w:]+(?:<[^{]*?>)?)\s+for\s+([\w:]+(?:<[^{]*?>)?|\[[^\]]*\])\s*(?:where[^{]*)?\{", t):
+            b0 = t.index("{", m.end() - 1)
+            b1 = match_brace(t, b0)
+            body = t[b0 + 1:b1 - 1]
+            # methods at depth 1 of the block
+            depth, names, i = 0, [], 0
+            for fm in re.finditer(r"[{}]|\bfn\s+(\w+)", body):
+                if fm.group(0) == "{":
+                    depth += 1
+                elif fm.group(0) == "}":
+                    depth -= 1
+                elif depth == 0:
+                    names.append(fm.group(1))
+            tr = re.sub(r"\s+", "", m.group(2))
+            ty = re.sub(r"\s+", "", m.group(3))
+            rows.append(f"{tr} for {ty}: " + " ".join(names))
+        o.append(f"def implSurface{nm} : List String := [" + ",\n  ".join('"' + r + '"' for r in rows) + "]")
+    # how each state type gets Clone: the `#[derive(..)]` lists (attributes directly above the struct) and any hand-written `impl Clone for`
+    ltext = strip_comments(src(L))
+    hand = sorted(set(re.findall(r"impl(?:\s*<[^>]*>)?\s+(?:core::clone::|std::clone::)?Clone\s+for\s+(\w+)", ltext)))
+    o.append(f"def handWrittenClone : List String := {lean_strs(hand)}")
+    for ty in ["Hash", "Output", "ChunkState", "Hasher", "OutputReader"]:
+        m = re.search(rf"((?:#\[[^\]]*\]\s*)*)(?:pub\s+)?struct\s+{ty}\b", ltext)
+        if not m:
+            raise TranslationBroken(A, f"struct {ty} not found")
+        ders = []
+        for a in re.findall(r"#\[([^\]]*)\]", m.group(1)):
+            a = a.strip()
+            dm = re.match(r"derive\s*\((.*)\)$", a, flags=re.S)
+            if dm:
+                ders += [x.strip() for x in dm.group(1).split(",") if x.strip()]
+        o.append(f"def derives_{ty} : List String := {lean_strs(ders)}")
     body = impl_body(A, L, r"impl\s+Zeroize\s+for\s+Hash\b")
     zh = re.findall(r"^\s*(\w+)\.zeroize\(\)", body, flags=re.M)
     o.append(f"def zeroized_Hash : List String := {lean_strs(zh)}")
